@@ -101,6 +101,30 @@ def validate(path):
     return total, bad, r["states"]
 
 
+REDUCIBLE = ("refused_valid", "refused_valid_distinguishable", "accepted_bad")
+
+
+def reduce_signatures(rejected):
+    """TLC names every failed condition (accepted_bad:conn+version) or every non-exact field (refused_valid:
+    conn=case+psk=near) of a rejected line.  One defect then shows up under many combinations; group each line under
+    the smallest combination that was itself rejected and that it contains (pure grouping: the verdicts are TLC's)."""
+    sets = collections.defaultdict(set)
+    for sig in rejected:
+        kind, _, atoms = sig.partition(":")
+        if kind in REDUCIBLE:
+            sets[kind].add(frozenset(atoms.split("+")))
+    out = collections.defaultdict(list)
+    for sig, items in rejected.items():
+        kind, _, atoms = sig.partition(":")
+        if kind in REDUCIBLE:
+            mine = frozenset(atoms.split("+"))
+            subs = sorted((x for x in sets[kind] if x <= mine), key=lambda x: (len(x), sorted(x)))
+            order = atoms.split("+")
+            sig = kind + ":" + "+".join(a for a in order if a in subs[0])
+        out[sig] += items
+    return out
+
+
 def txt(octets):
     return bytes(octets).decode("latin-1").encode("unicode_escape").decode()
 
@@ -284,6 +308,7 @@ def check(prop, tier, seed, replay):
         violations = []
         known_met = []
         rej_summary = {}
+        rejected = reduce_signatures(rejected)
         for sig in sorted(rejected):
             items = sorted(rejected[sig], key=lambda x: size_of(x[0]))
             rej_summary[sig] = dict(lines=len(items), smallest=describe(items[0][0], items[0][1]))
@@ -295,7 +320,14 @@ def check(prop, tier, seed, replay):
             note = [f"property {prop}, signature {sig}: {len(items)} logged lines rejected by TLC (spec/UpgradeTrace.tla)",
                     "smallest rejected lines (request -> what the server answered; the same request on an unknown path; "
                     "table: what spec/Upgrade.tla demands):"]
-            note += ["  " + describe(r, e) for r, e, _ in items[:12]]
+            seen_desc = []
+            for r, e, _ in items:
+                d = describe(r, e)
+                if d not in seen_desc:
+                    seen_desc.append(d)
+                if len(seen_desc) >= 12:
+                    break
+            note += ["  " + d for d in seen_desc]
             text = [json.dumps(r, separators=(",", ":"), sort_keys=True) + "\n" for r, _, _ in items[:MAX_REPLAY_LINES]]
             path = vlib.save_replay(prop, re.sub(r"[^A-Za-z0-9_]+", "_", sig), text, note="\n".join(note))
             violations.append((path, sig, len(items)))
